@@ -150,3 +150,31 @@ Print Assumptions C10_resolution_consistent.
 Print Assumptions C10_combined_weights.
 Print Assumptions C10_guard_strict.
 Print Assumptions C10_normalisation.
+
+(* ---------------------------------------------------------------------------------------------------------------
+   Spacing by PERPENDICULAR distance (getSfuncFixedPerpSpacing): FineContour.interpSSperp as modelled in
+   theories/Model_Sperp.v (projection on the unit vector perpendicular to the given one, the two loops that make the
+   projected distance monotone by reflecting the rest of the list, total, the linear interpolation s(s_perp); the
+   PrimFloat instance is run bit for bit against the real method on every run). *)
+From Coq Require Import Arith.
+From HT Require Import Field Model_Sperp Proof_Sperp.
+Import ListNotations.
+
+(* the loop going up from startInd yields the running sums of the ABSOLUTE increments (for a list of any length) ... *)
+Theorem C10_perp_loop_is_running_absolute_sum : forall fuel prev (l : list R), (length l <= fuel)%nat ->
+  fwd Rops fuel prev l = abs_sums prev prev l.
+Proof. exact fwd_abs_sums. Qed.
+
+(* ... so every increment keeps its size and only its sign may change ... *)
+Theorem C10_perp_increments_keep_their_size : forall (l : list R) prev k, (S k < length l)%nat ->
+  nth (S k) (fwd Rops (length l) prev l) 0 - nth k (fwd Rops (length l) prev l) 0 = Rabs (nth (S k) l 0 - nth k l 0).
+Proof. exact fwd_increment_sizes. Qed.
+
+(* ... and after both loops the perpendicular distance is non-decreasing along the whole contour, unchanged at startInd and
+   has one entry per fine point: s(s_perp) is interpolated on ordered abscissae whatever the shape of the contour and whichever
+   way the vector points *)
+Theorem C10_perp_distance_is_monotone : forall (s : list R) si, (si < length s)%nat ->
+  nondecr (monotonise Rops s si) /\ nth si (monotonise Rops s si) 0 = nth si s 0 /\ length (monotonise Rops s si) = length s.
+Proof. exact monotonise_nondecr. Qed.
+
+Print Assumptions C10_perp_distance_is_monotone.
